@@ -7,6 +7,7 @@ import (
 	"encoding/base64"
 	"encoding/xml"
 	"fmt"
+	"reflect"
 	"strings"
 	"time"
 
@@ -604,12 +605,10 @@ func c09Cipher(r *core.Run, s *Std, spKey int, spCert *world.Cert, kindRaw, algR
 			cs = append(cs, c09Call{"EncryptedAssertion.DecryptBytes", o, o.Err != nil})
 			o = world.Guard(func() error { a, e := ea.Decrypt(cert); nilRes = a == nil; return e })
 			cs = append(cs, c09Call{"EncryptedAssertion.Decrypt", o, nilRes})
-			ekp := &ea.EncryptedKey
-			if ekp.CipherValue == "" {
-				ekp = &ea.DetEncryptedKey
+			if ekp := encKeyOf(ea); ekp != nil {
+				o = world.Guard(func() error { b, e := ekp.DecryptSymmetricKey(cert); nilRes = b == nil; return e })
+				cs = append(cs, c09Call{"EncryptedKey.DecryptSymmetricKey", o, nilRes})
 			}
-			o = world.Guard(func() error { b, e := ekp.DecryptSymmetricKey(cert); nilRes = b == nil; return e })
-			cs = append(cs, c09Call{"EncryptedKey.DecryptSymmetricKey", o, nilRes})
 		}
 	}
 	// and through an unsigned Response (reachable without any IdP key)
@@ -623,4 +622,34 @@ func c09Cipher(r *core.Run, s *Std, spKey int, spCert *world.Cert, kindRaw, algR
 	r.Logf("cipher %s alg=%q %s cfg=%s -> %s", kind, opts.DataAlg, detail, cfgName, classes)
 	r.Shape(fmt.Sprintf("cipher.%s.%s.%s.%s.%s", kind, opts.DataAlg, detail, cfgName, classes))
 	r.Sample = obs("family", "cipher", "kind", kind, "data_alg", opts.DataAlg, "key_alg", opts.KeyAlg, "detail", detail, "config", cfgName, "outcomes", classes)
+}
+
+// encKeyOf returns the EncryptedKey DecryptBytes would use (inline, else detached). The
+// fields are read through reflection so that the harness keeps compiling if a change to the
+// library turns one of them into a pointer.
+func encKeyOf(ea *types.EncryptedAssertion) *types.EncryptedKey {
+	get := func(name string) *types.EncryptedKey {
+		f := reflect.ValueOf(ea).Elem().FieldByName(name)
+		if !f.IsValid() {
+			return nil
+		}
+		if f.Kind() == reflect.Ptr {
+			if f.IsNil() {
+				return nil
+			}
+			f = f.Elem()
+		}
+		if !f.CanAddr() {
+			return nil
+		}
+		k, _ := f.Addr().Interface().(*types.EncryptedKey)
+		return k
+	}
+	if k := get("EncryptedKey"); k != nil && k.CipherValue != "" {
+		return k
+	}
+	if k := get("DetEncryptedKey"); k != nil {
+		return k
+	}
+	return get("EncryptedKey")
 }
